@@ -18,6 +18,7 @@ except ImportError:  # pragma: no cover
 from collections import OrderedDict
 
 import attr
+import dateutil.tz
 import six
 import urllib3
 
@@ -120,6 +121,17 @@ class Serializable(object):  # pylint: disable=too-few-public-methods
         return (2, 0, repr(item))
 
     @staticmethod
+    def _get_date_time_in_utc(date_time):
+        # equal instants are rendered equally, whatever zone they are given in
+        if date_time.tzinfo is None:
+            return date_time
+
+        try:
+            return date_time.astimezone(dateutil.tz.UTC)
+        except OverflowError:
+            return date_time
+
+    @staticmethod
     def _json_result(obj):
         if isinstance(obj, enum.Enum):
             if isinstance(obj.value, CryptoDataParamsBase):
@@ -130,6 +142,8 @@ class Serializable(object):  # pylint: disable=too-few-public-methods
             result = obj
         elif isinstance(obj, (bytes, bytearray)):
             result = bytes_to_hex_string(obj, separator=':', lowercase=False)
+        elif isinstance(obj, datetime.datetime):
+            result = str(Serializable._get_date_time_in_utc(obj))
         else:
             result = str(obj)
 
@@ -261,6 +275,8 @@ class Serializable(object):  # pylint: disable=too-few-public-methods
             return False, str(obj)
         elif isinstance(obj, datetime.timedelta):
             return False, str(int(obj.total_seconds()))
+        elif isinstance(obj, datetime.datetime):
+            result = cls.post_text_encoder(Serializable._get_date_time_in_utc(obj), level)
         elif isinstance(obj, CryptoDataParamsBase) and hasattr(obj, '__str__'):
             return False, str(obj)
         elif attr.has(type(obj)):
